@@ -32,6 +32,7 @@ const (
 	KExit               // thread exit (internal)
 	KBlock              // thread became blocked (internal)
 	KChoose             // environment choice (internal)
+	KAccess             // plain read/write of an instrumented location (only with AccessPoints)
 )
 
 // Cost models for alternatives.
@@ -48,6 +49,7 @@ type Config struct {
 	StepBudget    int   // scheduling points per execution before it is declared runaway (0 = 200000)
 	SpinLimit     int   // identical (op,object,shadow-state) observations by one thread with nobody else stepping (0 = 64)
 	Horizon       int64 // virtual nanoseconds after which pending timers are no longer fired (0 = no limit)
+	SwitchOnTime  bool  // coarse mode: time operations (arming / stopping timers) are switch points
 	SwitchOnSpawn bool  // coarse mode: a go statement is a switch point too (the new thread may run before its creator continues)
 	FreeAtExit    bool  // in CostDelay mode, make the choice after a thread exit/block free (cost 0 for every alternative)
 }
@@ -86,6 +88,7 @@ type Result struct {
 	ReplayErr  string // the prefix could not be followed (nondeterminism): harness error
 	VNow       int64
 	MaxThreads int
+	Races      []RaceReport
 }
 
 type thread struct {
@@ -112,11 +115,13 @@ type spinKey struct {
 }
 
 type timer struct {
-	when int64
-	seq  int
-	fire func() // runs on the scheduler's behalf (baton held); must not block
-	name string
-	dead bool
+	token    vclock
+	tokenTid int
+	when     int64
+	seq      int
+	fire     func() // runs on the scheduler's behalf (baton held); must not block
+	name     string
+	dead     bool
 }
 
 type exec struct {
@@ -139,6 +144,10 @@ type exec struct {
 	live          sync.WaitGroup
 	resetFns      []func()
 	noTimers      bool
+	hb            *hbState
+	accessPoints  bool
+	hbOverride    *vclock
+	hbOverrideTid int
 	finisher      *thread
 	finisherParks bool
 	willPark      bool
@@ -195,6 +204,10 @@ func Run(cfg Config, prefix []int, setup func(), body func()) *Result {
 		<-th.exited
 	}
 	e.live.Wait()
+	if e.hb != nil {
+		e.res.Races = e.hb.results()
+	}
+	hb = nil
 	e.res.VNow = e.now
 	e.res.MaxThreads = len(e.threads)
 	ex = nil
@@ -345,7 +358,12 @@ func (e *exec) fireTimer(tm *timer) {
 		e.now = tm.when
 	}
 	e.lastStep = nil
+	if e.hb != nil {
+		tok := tm.token.clone()
+		e.hbOverride, e.hbOverrideTid = &tok, tm.tokenTid
+	}
 	tm.fire()
+	e.hbOverride = nil
 }
 
 // decide records a decision among n options and returns the option taken.
@@ -536,7 +554,7 @@ func Point(kind Kind, obj uintptr) {
 		return
 	}
 	e.step(kind, obj)
-	if e.cfg.Coarse && kind != KYield && kind != KEnter && !(kind == KSpawn && e.cfg.SwitchOnSpawn) {
+	if e.cfg.Coarse && kind != KYield && kind != KEnter && !(kind == KSpawn && e.cfg.SwitchOnSpawn) && !(kind == KTime && e.cfg.SwitchOnTime) {
 		return
 	}
 	e.reschedule(kind, "")
@@ -577,6 +595,9 @@ func Go(name string, body func()) {
 		return
 	}
 	t := e.newThread(fmt.Sprintf("%s#%d", name, len(e.threads)))
+	if e.hb != nil {
+		e.hb.spawn(e.cur.id, t.id)
+	}
 	e.startThread(t, body)
 	Point(KSpawn, 0)
 }
@@ -589,6 +610,9 @@ func GoDaemon(name string, body func()) {
 	}
 	t := e.newThread(fmt.Sprintf("%s#%d", name, len(e.threads)))
 	t.daemon = true
+	if e.hb != nil {
+		e.hb.spawn(e.cur.id, t.id)
+	}
 	e.startThread(t, body)
 }
 
@@ -658,6 +682,13 @@ func AddTimer(d int64, name string, fire func()) (cancel func() bool) {
 	}
 	e.tseq++
 	tm := &timer{when: e.now + d, seq: e.tseq, fire: fire, name: name}
+	if e.hb != nil {
+		tm.tokenTid = e.cur.id
+		if e.hbOverride != nil {
+			tm.tokenTid = e.hbOverrideTid
+		}
+		tm.token = e.hb.snapshot()
+	}
 	e.timers = append(e.timers, tm)
 	return func() bool {
 		if tm.dead {
@@ -771,5 +802,8 @@ func Spawn(name string, body func()) {
 		return
 	}
 	t := e.newThread(fmt.Sprintf("%s#%d", name, len(e.threads)))
+	if e.hb != nil {
+		e.hb.spawn(e.cur.id, t.id)
+	}
 	e.startThread(t, body)
 }
